@@ -2,6 +2,7 @@ package checks
 
 import (
 	"fmt"
+	"os"
 	"sort"
 	"strings"
 	"time"
@@ -23,6 +24,9 @@ func C11(c *vf.Check) {
 	}
 	cache := map[string]famCases{}
 	runCfg := func(fam string, size string, lazy string, o srcOpts, what string, every int) {
+		if only := os.Getenv("VERIF_ONLY_CFG"); only != "" && !strings.Contains(what, only) { // debugging knob
+			return
+		}
 		o.CompileOnly = true
 		consts := map[string]string{
 			"Family": `"` + fam + `"`, "MaxSize": size, "TapeLen": "0", "MaxCalls": "1",
@@ -59,6 +63,13 @@ func C11(c *vf.Check) {
 		for _, k := range keys {
 			v := groups[k]
 			nf += len(v)
+			if o.Form == "hygiene" && c.KF.Open("KF36", c.ID) && strings.Contains(k, "is not a type") {
+				// open finding KF36: identified by the configuration AND the diagnostic; anything else is a violation
+				for range v {
+					c.Known("KF36", "["+fam+", "+what+"] "+vf.Trunc(run.Status[v[0]], 200))
+				}
+				continue
+			}
 			for j, p := range v {
 				if j >= 2 {
 					break
@@ -98,6 +109,7 @@ func C11(c *vf.Check) {
 	for _, form := range []string{"method", "generic", "lit", "nestedlit"} {
 		runCfg("ctl", sz, "FALSE", srcOpts{Form: form}, "generators declared as "+form, every)
 	}
+	runCfg("ctl", "2", "FALSE", srcOpts{Form: "hygiene"}, "a parameter named like the element type (type a = int; func G(r, a, b a) Iter[a])", 1)
 	runCfg("ctl", sz, "FALSE", srcOpts{Form: "method", Import: "named"}, "method generators, API imported by name", every*2)
 	runCfg("ctl", sz, "FALSE", srcOpts{Import: "dot+seq"}, "seq already imported by the source under its default name", every)
 	runCfg("ctl", sz, "FALSE", srcOpts{Import: "dot+sq"}, "seq already imported by the source under another name", every)
